@@ -16,10 +16,16 @@ Definition v_Ns (l : list N) : val := VL (map VN l).
 Definition v_ivs (l : list N) : val :=
   VL [VN (N.of_nat (List.length l)); VL (map (fun iv => VL [VN (fst iv); VN (snd iv)]) (intervals l))].
 
+(** operands: the list itself when short, its interval form when long (keeps case files small) *)
+Definition v_items (l : list N) : val :=
+  if Nat.leb (List.length l) 40 then VL [VN 0; v_Ns l] else VL [VN 1; v_ivs l].
+
 Definition v_port (nr : bool) (c : pctx) (p : port) : val :=
   VL [VS (match p_op p with Some o => pop_name o | None => "" end);
-      v_Ns (p_items p); v_ivs (p_ports p); VS (p_sport p);
-      VS (join " " (render_port nr c p))].
+      v_items (p_items p); v_ivs (p_ports p);
+      VS (if Nat.leb (String.length (p_sport p)) 300 then p_sport p else "<long>");
+      (let ln := join " " (render_port nr c p) in
+       VS (if Nat.leb (String.length ln) 300 then ln else "<long>"))].
 
 (** helpers.init_protocol: "6" -> tcp, "17" -> udp, anything else but tcp/udp -> "" *)
 Definition mk_ctx (proto : string) (pl : platform) (v15 : bool) : pctx :=
